@@ -38,7 +38,10 @@ def main():
         r = sh("git", "-C", REPO, "apply", "--3way", patch)
         if r.returncode != 0:
             print("PATCH DOES NOT APPLY:", r.stderr[-500:])
+            sh("git", "-C", REPO, "reset", "-q")
             sh("git", "-C", REPO, "checkout", "--", ".")
+            if REPO != "/repo":
+                sh("git", "-C", REPO, "reset", "-q", "--hard")
             return 2
     caught = []
     try:
@@ -51,8 +54,10 @@ def main():
             if p.returncode == 1:
                 caught.append(c)
     finally:
-        sh("git", "-C", REPO, "checkout", "--", ".")
         sh("git", "-C", REPO, "reset", "-q")
+        sh("git", "-C", REPO, "checkout", "--", ".")
+        if REPO != "/repo":
+            sh("git", "-C", REPO, "reset", "-q", "--hard")    # a scratch worktree: also clears a failed 3-way merge
     print("CAUGHT-BY:", ",".join(caught) if caught else "none")
     return 0 if clean() else 3
 
